@@ -298,6 +298,20 @@ func gen(g *core.G) {
 			}
 		}
 	}
+	// (ii'') the Runtime rule, exhaustively: every pair (acceptance, equality) and every triple (thorough; quick: a sample) of the 27
+	// Runtime types over 3 runtimes x 3 names x 3 patterns
+	rts := lat.RuntimeUniverse()
+	for _, a := range rts {
+		for _, b := range rts {
+			g.Emit("asg " + s(a) + " " + s(b))
+			g.Emit("eq " + s(a) + " " + s(b))
+			for _, cc := range rts {
+				if g.Thorough() || g.Rng.Intn(8) == 0 {
+					g.Emit("trans " + s(a) + " " + s(b) + " " + s(cc))
+				}
+			}
+		}
+	}
 	// equality across the universe (mostly false; equal-but-different terms are what matters)
 	for i := 0; i < 2000*g.Scale; i++ {
 		g.Emit("eq " + s(pick(u1)) + " " + s(pick(u1)))
